@@ -99,7 +99,8 @@ Theorem C16_beep_counts : forall pin neg tbl st f on off times,
 Proof. exact beep_counts. Qed.
 Print Assumptions C16_beep_counts.
 
-(* ---- sweep *)
+(* ---- sweep.  The duration clause is partial: it carries the guards d >= 0 and floor(d) < 2^24, each with its
+   refutation below; the tone-count clauses state n = max(1, trunc steps) (refutation for steps <= 0 below). *)
 Theorem C16_sweep : forall pin neg tbl st s e d steps,
   let n := Z.max 1 (c_int steps) in
   let tr := snd (dstep pin neg tbl st (Sweep s e d steps)) in
@@ -111,7 +112,8 @@ Theorem C16_sweep : forall pin neg tbl st s e d steps,
   ((clamp0 e <= clamp0 s)%Q -> StronglySorted Z.ge (tones tr)) /\
   (1 < n -> qlt q0 s = true -> hd 0 (tones tr) = tone_of s) /\
   (qlt q0 e = true -> last (tones tr) 0 = tone_of e) /\
-  (qle q0 d = true -> delay_sum tr <= Qfloor d /\ (inject_Z (delay_sum tr) <= d)%Q) /\
+  (qle q0 d = true -> Qfloor d < 2 ^ 24 ->
+     delay_sum tr <= Qfloor d /\ (inject_Z (delay_sum tr) <= d)%Q) /\
   sounding_from true tr = false.
 Proof. exact sweep_protocol. Qed.
 Print Assumptions C16_sweep.
@@ -119,12 +121,21 @@ Print Assumptions C16_sweep.
 (* the delays one by one: every step waits floor(duration) / steps ms (integer division; delay(0) when the
    quotient is 0 but the duration is not), and a zero duration never delays *)
 Theorem C16_sweep_delays : forall pin neg tbl st s e d steps,
-  qle q0 d = true ->
+  qle q0 d = true -> Qfloor d < 2 ^ 24 ->
   let n := Z.max 1 (c_int steps) in
   delays (snd (dstep pin neg tbl st (Sweep s e d steps))) =
   if 0 <? Qfloor d then repeat (Qfloor d / n) (Z.to_nat n) else [].
 Proof. exact sweep_delays. Qed.
 Print Assumptions C16_sweep_delays.
+
+(* the duration bound needs floor(d) < 2^24: the firmware converts the duration to a float before dividing it
+   by the step count (DBuzzer.f32z); sweep(440, 880, 16777219, steps=1) waits 16777220 ms *)
+Theorem C16_sweep_float_duration_refuted :
+  exists pin neg tbl st s e d steps,
+    qle q0 d = true /\
+    Qfloor d < delay_sum (snd (dstep pin neg tbl st (Sweep s e d steps))).
+Proof. exact sweep_float_duration_refuted. Qed.
+Print Assumptions C16_sweep_float_duration_refuted.
 
 (* the duration bound needs d >= 0: a negative run-time int duration wraps around *)
 Theorem C16_sweep_negative_duration_refuted :
